@@ -130,7 +130,11 @@ func init() {
 		found := false
 		for _, v := range vals {
 			if v.Tag == "aead.WithKey" {
-				x.writeComp(st, aeadKeyPrefix, SStr, c.Args[0].T, x.bytesContent(st, v.Bind[0].T))
+				k := x.bytesContent(st, v.Bind[0].T)
+				x.writeComp(st, aeadKeyPrefix, SStr, c.Args[0].T, k)
+				// go-kms-wrapping: SetConfig fails for an AES key of the wrong size
+				fail.assume(Neq(StrLen(k), IntT(32)))
+				st.assume(Eq(StrLen(k), IntT(32)))
 				found = true
 			}
 		}
